@@ -171,7 +171,8 @@ func (ex *Exec) encStruct(t types.Type, sv *StructV) (*Term, bool) {
 	e := tt.UF("jenc_"+key, SString, args...)
 	if !ex.W.encSeen[e.id] {
 		ex.W.encSeen[e.id] = true
-		tt.axioms = append(tt.axioms, tt.UF("jvalid_"+key, SBool, e), tt.Not(tt.UF("jnull_"+key, SBool, e)))
+		tt.axioms = append(tt.axioms, tt.UF("jvalid_"+key, SBool, e), tt.Not(tt.UF("jnull_"+key, SBool, e)),
+			tt.Not(tt.UF("jvalid_string", SBool, e)), tt.PrefixOf(tt.Str("{"), e)) // an object is not a JSON string
 		for i, l := range leaves {
 			tt.axioms = append(tt.axioms, tt.Eq(tt.UF(fmt.Sprintf("jdec_%s_%d", key, i), l.sort, e), args[i]))
 		}
